@@ -17,15 +17,16 @@ open Opt OptSem Ir
 variable {w : Nat}
 
 /-- What the parent needs of a non-moving child (after the child's own `emitAll`). -/
-structure ChildOk (shP shC : Int) (pc : List (Rebuild w)) (sub0 sub1 : Rebuild w) (cS : Int)
-    (bodyS : List (Instr w)) : Prop where
-  rep : ChildRep shP shC pc sub0 [] sub1 bodyS
-  foot : FootStepV (Valid shP sub0 pc) sub0 sub1 sub1.insts
-  frame2 : FootFrameV (Valid shP sub0 pc) sub0 sub1 sub1.insts
+structure ChildOk (Gc : State w → Prop) (shP shC : Int) (pc : List (Rebuild w)) (sub0 sub1 : Rebuild w)
+    (cS : Int) (bodyS : List (Instr w)) : Prop where
+  rep : ChildRep Gc shP shC pc sub0 [] sub1 bodyS
+  foot : FootStepV (ValidG Gc shP sub0 pc) sub0 sub1 sub1.insts
+  badfoot : FootBadV (ValidG Gc shP sub0 pc) sub0 sub1 sub1.insts
+  frame2 : FootFrameV (ValidG Gc shP sub0 pc) sub0 sub1 sub1.insts
   noShift : sub1.subShift = false
   pend : sub1.noReturn = false → sub1.pending = []
   w0 : sub0.written = []
-  entry : ∀ σE σS : State w, SameMem shP σS σE → σS.rd cS ≠ 0#w → ∃ M0, RelAt shP sub0 pc M0 σE σS
+  entry : ∀ σE σS : State w, SameMem shP σS σE → σS.rd cS ≠ 0#w → Gc σS → ∃ M0, RelAt shP sub0 pc M0 σE σS
 
 /-- End-state relation of one round. -/
 def RoundQ (shC : Int) (K : Int → Prop) (sub1 : Rebuild w) (σS' σE' : State w) (a b : State w) : Prop :=
@@ -40,12 +41,12 @@ theorem rest_fresh {K : Int → Prop} {sub0 : Rebuild w} (h : sub0.written = [])
   rw [h]
   simp [mGet]
 
-theorem child_round {shP shC cS : Int} {pc : List (Rebuild w)} {sub0 sub1 : Rebuild w}
-    {bodyS : List (Instr w)} (hc : ChildOk shP shC pc sub0 sub1 cS bodyS)
+theorem child_round {Gc : State w → Prop} {shP shC cS : Int} {pc : List (Rebuild w)} {sub0 sub1 : Rebuild w}
+    {bodyS : List (Instr w)} (hc : ChildOk Gc shP shC pc sub0 sub1 cS bodyS)
     (K : Int → Prop) (hK : ∀ v, K v → v ∉ sub1.reads) (hKc : ¬ K (cS + shP)) {σS' σE' : State w}
     (htr : σS'.trace = σE'.trace) (henv : σS'.env = σE'.env) (hptr : σS'.ptr = σE'.ptr + shP)
-    (hag : ∀ v, ¬ K v → memS σE' σS' v = memE σE' v) (hne : σS'.rd cS ≠ 0#w) :
-    Sim (RoundQ shC K sub1 σS' σE') bodyS sub1.insts σS' σE' := by
+    (hag : ∀ v, ¬ K v → memS σE' σS' v = memE σE' v) (hne : σS'.rd cS ≠ 0#w) (hg : Gc σS') :
+    Sim (RoundQ shC K sub1 σS' σE') bodyS sub1.insts σS' σE' ∧ ¬ Bad sub1.insts σE' := by
   -- the source state re-coordinated: same tape, pointer of the emitted program
   have hX : ∃ σX : State w, σX = σS'.mov (-shP) := ⟨_, rfl⟩
   obtain ⟨σX, hσX⟩ := hX
@@ -57,8 +58,8 @@ theorem child_round {shP shC cS : Int} {pc : List (Rebuild w)} {sub0 sub1 : Rebu
     funext v
     show σS'.tape.get (σX.ptr + v) = σX.tape.get (σX.ptr + v)
     rw [hXtape]
-  obtain ⟨M0c, hre⟩ := hc.entry σX σS' hsm hne
-  obtain ⟨hs1, _⟩ := hc.rep M0c σX σS' hre
+  obtain ⟨M0c, hre⟩ := hc.entry σX σS' hsm hne hg
+  obtain ⟨hs1, hnbX⟩ := hc.rep M0c σX σS' hre hg
   have hagX : AgreeOff (Rest K sub0) σX σE' := by
     refine ⟨hXptr, by rw [hσX]; exact henv, by rw [hσX]; exact htr, ?_⟩
     intro v hv
@@ -66,8 +67,9 @@ theorem child_round {shP shC cS : Int} {pc : List (Rebuild w)} {sub0 sub1 : Rebu
     have := hag v hkv
     show σX.tape.get (σX.ptr + v) = _
     rw [hXtape, hXptr]; exact this
-  have hvX : Valid shP sub0 pc σX := ⟨M0c, σS', hre⟩
+  have hvX : ValidG Gc shP sub0 pc σX := ⟨M0c, σS', hre, hg⟩
   have hs2 := hc.foot hc.noShift K hK σX σE' hvX hagX
+  refine ⟨?_, fun hb => hnbX (hc.badfoot hc.noShift K hK σX σE' hvX hagX hb)⟩
   refine (Sim.trans hs1.fin_strengthen hs2.fin_strengthen).mono ?_
   rintro a b ⟨y, ⟨⟨M0', hr', hk'⟩, _, hy⟩, hab, _, hb⟩
   have hp1 : sub1.pending = [] := hc.pend hr'.nr
@@ -111,21 +113,6 @@ theorem child_round {shP shC cS : Int} {pc : List (Rebuild w)} {sub0 sub1 : Rebu
     have hnr : ¬ Rest K sub1 v := fun h => hkv h.1
     rw [← hab.2.2.2 v hnr, hr'.inv.writ.known hv]
     exact Expr.eval_constant e c _ hcst
-
-/-- The child's code never reaches a badly marked loop when started in a state of the emitted program whose
-condition cell is not zero. -/
-theorem child_not_bad {shP shC cS : Int} {pc : List (Rebuild w)} {sub0 sub1 : Rebuild w}
-    {bodyS : List (Instr w)} (hc : ChildOk shP shC pc sub0 sub1 cS bodyS) {σE' : State w}
-    (hne : σE'.rd (cS + shP) ≠ 0#w) : ¬ Bad sub1.insts σE' := by
-  have hsm : SameMem shP (σE'.mov shP) σE' := by
-    refine ⟨rfl, rfl, rfl, ?_⟩
-    funext v; rfl
-  have hne' : (σE'.mov shP).rd cS ≠ 0#w := by
-    show σE'.tape.get (σE'.ptr + shP + cS) ≠ 0#w
-    have e : σE'.ptr + shP + cS = σE'.ptr + (cS + shP) := by omega
-    rw [e]; exact hne
-  obtain ⟨M0c, hre⟩ := hc.entry σE' (σE'.mov shP) hsm hne'
-  exact (hc.rep M0c σE' _ hre).2
 
 /-! ### refinements of `removePending` / `clobber`: nothing is dropped when nothing is pending -/
 
